@@ -1,11 +1,14 @@
 #!/bin/sh
-# check_seed.sh <ID> [tier] : run ./check <ID> against /repo HEAD + seeded/<ID>/patch.diff in a scratch worktree (removed afterwards)
-ID=$1; TIER=${2:-quick}
-WT=/tmp/wt_seedchk_$ID
+# check_seed.sh <NAME> [tier] : run ./check <PROPERTY> against /repo HEAD + seeded/<NAME>/patch.diff in a scratch worktree
+# (removed afterwards); NAME is C07 or C07b ..., PROPERTY its first three characters; the log goes to seeded/<NAME>/check_<PROPERTY>.log
+NAME=$1; TIER=${2:-quick}
+PROP=$(echo $NAME | cut -c1-3)
+WT=/tmp/wt_seedchk_$NAME
 git -C /repo worktree remove --force $WT >/dev/null 2>&1
 git -C /repo worktree add -q --detach $WT HEAD || exit 3
-git -C $WT apply /verif/seeded/$ID/patch.diff || { echo "patch does not apply"; git -C /repo worktree remove --force $WT; exit 3; }
-(cd /verif && ./check $ID --tier $TIER --repo $WT); rc=$?
+git -C $WT apply /verif/seeded/$NAME/patch.diff || { echo "patch does not apply"; git -C /repo worktree remove --force $WT; exit 3; }
+(cd /verif && ./check $PROP --tier $TIER --repo $WT > /verif/seeded/$NAME/check_$PROP.log 2>&1); rc=$?
 git -C /repo worktree remove --force $WT
-echo "seed $ID tier $TIER: check exit $rc (1 = detected)"
+tail -1 /verif/seeded/$NAME/check_$PROP.log | cut -c1-200
+echo "seed $NAME tier $TIER: check exit $rc (1 = detected)"
 exit $rc
